@@ -13,7 +13,7 @@
 (***************************************************************************)
 EXTENDS CQ, TLC
 
-CONSTANTS MaxOrder, T0Set, Parts, ZParts, Complex
+CONSTANTS MaxOrder, T0Set, T0Im, Parts, ZParts, Complex   \* T0Im: imaginary parts of the diagonal (complex systems)
 
 VARIABLES t0, tc, tr, z, x, A, B, P, pivots, status
 
@@ -21,7 +21,7 @@ vars == <<t0, tc, tr, z, x, A, B, P, pivots, status>>
 
 Vals(S) == IF Complex THEN {CGauss(a, b) : a \in S, b \in S} ELSE {CInt(a) : a \in S}
 
-Init == /\ t0 \in {CInt(v) : v \in T0Set}
+Init == /\ t0 \in (IF Complex THEN {CGauss(v, u) : v \in T0Set, u \in T0Im} ELSE {CInt(v) : v \in T0Set})
         /\ tc = <<>> /\ tr = <<>>
         /\ z \in {<<v>> : v \in Vals(ZParts)}
         /\ x = <<CDiv(z[1], t0)>>
